@@ -1098,6 +1098,7 @@ class AstEval:
             sym_table_assign = self.global_sym_table
         else:
             sym_table_assign = self.sym_table
+        prev_binding = sym_table_assign.get(arg.name)
         sym_table_assign[arg.name] = EvalLocalVar(arg.name)
         if hasattr(metaclass, "__prepare__"):
             sym_table = metaclass.__prepare__(arg.name, tuple(bases), **keywords)
@@ -1105,13 +1106,22 @@ class AstEval:
             sym_table = {}
         self.sym_table_stack.append(self.sym_table)
         self.sym_table = sym_table
-        for arg1 in arg.body:
-            val = await self.aeval(arg1)
-            if isinstance(val, EvalReturn):
-                raise SyntaxError(f"{val.name()} statement outside function")
-            if isinstance(val, EvalStopFlow):
-                raise SyntaxError(f"{val.name()} statement outside loop")
-        self.sym_table = self.sym_table_stack.pop()
+        try:
+            for arg1 in arg.body:
+                val = await self.aeval(arg1)
+                if isinstance(val, EvalReturn):
+                    raise SyntaxError(f"{val.name()} statement outside function")
+                if isinstance(val, EvalStopFlow):
+                    raise SyntaxError(f"{val.name()} statement outside loop")
+        except BaseException:
+            # like Python, the name is only (re)bound once the class body has completed
+            if prev_binding is None:
+                del sym_table_assign[arg.name]
+            else:
+                sym_table_assign[arg.name] = prev_binding
+            raise
+        finally:
+            self.sym_table = self.sym_table_stack.pop()
 
         decorators = [await self.aeval(dec) for dec in arg.decorator_list]
         if "__init__" in sym_table:
